@@ -23,9 +23,10 @@ echo "== demo without the change (must pass)" >> $LOG
 timeout 600 cargo test --offline --features verif --test seed_demo >> $LOG 2>&1; WITHOUT=$?
 rm -f tests/seed_demo.rs
 echo "suite_ok=$SUITE demo_with_change_exit=$WITH demo_without_change_exit=$WITHOUT" | tee -a $LOG
-# the check on the changed tree
-cd /repo && git apply $OUT/patch.diff || { echo "patch does not apply to /repo"; exit 3; }
-cd /verif && VERIF_EVIDENCE_DIR=/tmp/ev ./check $PROP > $OUT/check.out 2>&1; CE=$?
-git -C /repo checkout -- .
+# the check on the changed tree (the scratch worktree stands in for /repo: same HEAD, plus the change)
+cd $W && git apply $OUT/patch.diff || { echo "patch does not apply"; exit 3; }
+cd /verif && VERIF_REPO=$W VERIF_EVIDENCE_DIR=/tmp/ev_$ID VERIF_GEN_DIR=/tmp/gen_$ID VERIF_REPLAY_DIR=$OUT/replays ./check $PROP > $OUT/check.out 2>&1; CE=$?
+git -C $W checkout -q -- .
+rm -rf /tmp/ev_$ID /tmp/gen_$ID
 echo "check_exit=$CE" | tee -a $LOG
 tail -4 $OUT/check.out
